@@ -55,6 +55,9 @@ CHECKS = {
              "property-based testing (rapid): generated reference graphs and edit histories; oracle: reverse reachability over the model's current features with a visited set; termination by watchdog and crash capture",
              "Trusted: the reachability model. The chain the query defines is taken to be the transitive one the in-memory worlds implement (the compact world's direct-only answer is C02's subject).",
              hang_violation=True),
+    "C16": C("c16", dict(checks=400, shards=4, timeout=900), dict(checks=6000, shards=16, timeout=6000),
+             "property-based testing (rapid): generated pairs of layers with overlapping and disjoint IDs; oracle: map union with upper precedence for lookup, locations, enumeration and ordered searches",
+             "Trusted: the union-with-precedence model, restricted to the queries the property lists. Upper layers are valid worlds on their own (paths bring copies of their points)."),
     "C31": C("c31", dict(checks=4000, shards=2, timeout=300), dict(checks=40000, shards=16, timeout=3000),
              "property-based testing (rapid): round trips of generated feature IDs through every encoding, and order laws on generated triples with a differential against the compact index order",
              "Trusted: encoders/decoders of encoding/json, gopkg.in/yaml.v2 and protobuf. IDs in the postcode and ONS alias namespaces are restricted to values the packers produce (other values have no alias form). Namespaces exclude control characters."),
